@@ -119,11 +119,12 @@ def enumerate_grammars(n=2, t=2, r=3, L=2):
             yield G("N0", frozenset(V), list(combo))
 
 
-def convergent_scale(g, ops_q, candidates=(1, 2, 4, 8, 16)):
-    """Smallest scale for which the grammar's total weight converges comfortably (Kleene check)."""
+def convergent_scale(g, ops_q, candidates=(1, 2, 4, 8, 16), keep_weights=False):
+    """Smallest scale for which the grammar's total weight converges comfortably (Kleene check).
+    keep_weights: test the grammar with the weights it already carries (scale 1 only)."""
     from .spec import polysys
     for s in candidates:
-        gw = reweight(g, s)
+        gw = g if keep_weights else reweight(g, s)
         eqs = {X: [] for X in gw.N}
         for w, h, b in gw.rules:
             eqs[h].append((w, tuple(y for y in b if y not in gw.V)))
@@ -176,7 +177,11 @@ def grammar_domain(tier, seed, n_random=None, params=(3, 2, 5, 3)):
         s = convergent_scale(g, Q)
         if s is None:
             continue
-        out.append((f"rand{seed}_{i}", reweight(g, s, rng)))
+        gw = reweight(g, s, rng)
+        # the random prime assignment differs from the one the scale was chosen with: re-test the weights actually returned
+        if convergent_scale(gw, Q, candidates=(1,), keep_weights=True) is None:
+            gw = reweight(g, s)
+        out.append((f"rand{seed}_{i}", gw))
         i += 1
     return out
 
